@@ -235,15 +235,22 @@ func c01Resume(d *vCtx) error {
 	}
 	var details []map[string]any
 	id := 910000
-	pairs := [][2]int64{{0, 1}, {0, 5000}, {1, 1}, {5000, 3000}, {3000, 5000}, {4096, 4096}, {1, 0}}
+	pairs := [][2]int64{{0, 1}, {0, 5000}, {1, 1}, {5000, 3000}, {3000, 5000}, {4096, 4096}, {1, 0},
+		// the old file is the beginning of the new one (an interrupted earlier transfer): resumed, with
+		// enough left (>= 128 KiB) for the compression probe of "auto"
+		{-400000, 150000}, {-300000, 299000}}
 	for _, upload := range []bool{true, false} {
 		for _, proto := range []int{2, 3, 4} {
 			for pi, pr := range pairs {
 				c := &e2eCase{ID: id, Seed: d.seed + int64(id), NamesFromTops: true, WatchdogMs: 40000}
 				c.Opts = e2eOpts{Upload: upload, Overwrite: true, Protocol: proto, Timeout: 10, Bufsize: 1 << 20, Binary: pi%2 == 0}
+				like := 0
+				if pr[0] < 0 { // negative source size: the pre-existing file is a prefix of the source
+					pr[0], like = -pr[0], 1
+				}
 				c.Nodes = []e2eNode{{Rel: "same.bin", Size: pr[0], Kind: 1}, {Rel: "other.txt", Size: 700, Kind: 0}}
 				c.Bases = []string{"", ""}
-				c.Pre = []e2eNode{{Rel: "same.bin", Size: pr[1], Kind: 2}, {Rel: "untouched.dat", Size: 300, Kind: 1}}
+				c.Pre = []e2eNode{{Rel: "same.bin", Size: pr[1], Kind: 2, Like: like}, {Rel: "untouched.dat", Size: 300, Kind: 1}}
 				_, detail, err := e2eExec(c, e2eWorkDir(base, id), tr, false)
 				if err != nil {
 					return err
